@@ -149,13 +149,15 @@ def main():
         d, sid = sys.argv[2].rstrip("/"), sys.argv[3]
         dst = os.path.join("/verif/seeded", sid)
         os.makedirs(dst, exist_ok=True)
-        for f in ("patch.diff", "demo.rs", "notes.md"):
+        for f in ("patch.diff", "patch.orig.diff", "REBASED.txt", "demo.rs", "demo_stress.rs", "demo_async_std.rs", "notes.md"):
             if os.path.exists(os.path.join(d, f)):
                 shutil.copy(os.path.join(d, f), os.path.join(dst, f))
         conf = json.load(open(os.path.join(d, "confirm.json")))
         det = json.load(open(os.path.join(d, "detect.json"))) if os.path.exists(os.path.join(d, "detect.json")) else {}
+        summaries = json.load(open("/verif/tools/seed_summaries.json"))
         meta = {
             "id": sid,
+            "summary": summaries.get(sid, ""),
             "breaks_property": sid.split("-")[0],
             "needs_to_manifest": "see notes.md (section on what is needed to manifest)",
             "confirmed": {k: conf.get(k) for k in ("applies", "suite_passed", "suite_failed", "demo_path", "demo_cmd", "confirmed")},
